@@ -4,6 +4,7 @@ CONSTANTS
   MaxCrash = 2
   Guard = TRUE
   Tiny = FALSE
+  Queued = FALSE
 INVARIANTS NothingEverDeleted
 CHECK_DEADLOCK FALSE
 CONSTRAINT Bound
